@@ -14,4 +14,5 @@ func registerAll() {
 	core.Register("C06", execC06)
 	core.Register("C07", execC07)
 	core.Register("C15", execC15)
+	core.Register("C04", execC04)
 }
